@@ -226,7 +226,7 @@ func runPropertyCheck(e *Engine, prop, tier string, seed int, t0 time.Time) int 
 	}
 
 	// replay files + VIOLATION lines
-	rdir := filepath.Join(verifRoot, "replays", prop)
+	rdir := filepath.Join(outRoot(), "replays", prop)
 	for i := range viols {
 		v := &viols[i]
 		os.MkdirAll(rdir, 0o755)
@@ -306,7 +306,7 @@ func runPropertyCheck(e *Engine, prop, tier string, seed int, t0 time.Time) int 
 		cov["samples"] = []map[string]interface{}{{"note": "no solver obligation in this property; see other_backends"}}
 	}
 	ev := Evidence{PropertyID: prop, Tier: tier, Seed: seed, Level: level, Coverage: cov, Assumptions: al, WallS: round3(time.Since(t0).Seconds()), Violations: len(viols)}
-	if err := writeJSON(filepath.Join(verifRoot, "evidence", prop+".json"), ev); err != nil {
+	if err := writeJSON(filepath.Join(outRoot(), "evidence", prop+".json"), ev); err != nil {
 		fmt.Fprintln(os.Stderr, "govc: evidence:", err)
 		return 3
 	}
